@@ -135,6 +135,10 @@ package statecache
 //@      | LruHas[LruVal[sc.cache][iface(key)].(*lru.Cache)][b] && LruVal[LruVal[sc.cache][iface(key)].(*lru.Cache)][b] == old(LruVal[LruVal[sc.cache][iface(key)].(*lru.Cache)][b]))      #memoisation-keeps-committed-entries
 //@   ensures old(LruHas[sc.cache][iface(key)]) ==> (forall b Iface :: LruHas[LruVal[sc.cache][iface(key)].(*lru.Cache)][b] && !old(LruHas[LruVal[sc.cache][iface(key)].(*lru.Cache)][b]) ==>
 //@      | b == iface(blockHash) && LruVal[LruVal[sc.cache][iface(key)].(*lru.Cache)][b] == old(Truth(LruHas[LruVal[sc.cache][iface(key)].(*lru.Cache)], LruVal[LruVal[sc.cache][iface(key)].(*lru.Cache)], LruHas[sc.hashCache], LruVal[sc.hashCache], iface(blockHash))))      #memoised-entry-is-the-truth
+// a lookup never touches the parent links (they are shared by all keys: rewriting one for the key at
+// hand would redirect the lookups of every other key)
+//@   ensures LruHas[sc.hashCache] == old(LruHas[sc.hashCache]) && LruVal[sc.hashCache] == old(LruVal[sc.hashCache])           #ancestor-links-unchanged
+//@   ensures forall k Iface :: old(LruHas[sc.cache][k]) ==> LruHas[sc.cache][k] && LruVal[sc.cache][k] == old(LruVal[sc.cache][k])      #per-key-caches-stay-in-place
 //@   loop 1 invariant count >= 0 && (count == 0 || count < sc.maxHisDepth) && !LruHas[bvs][iface(blockHash)] && SCShape(sc) && LruHas[sc.cache][iface(key)] && LruVal[sc.cache][iface(key)] == blockValues       #walking
 //@   loop 1 invariant Truth(LruHas[bvs], LruVal[bvs], LruHas[sc.hashCache], LruVal[sc.hashCache], iface(oldBlockHash)) == Truth(LruHas[bvs], LruVal[bvs], LruHas[sc.hashCache], LruVal[sc.hashCache], iface(blockHash))      #same-truth-along-the-chain
 //@   loop 1 invariant LruHas[bvs] == old(LruHas[bvs]) && LruVal[bvs] == old(LruVal[bvs]) && LruHas[sc.hashCache] == old(LruHas[sc.hashCache]) && LruVal[sc.hashCache] == old(LruVal[sc.hashCache])      #nothing-written-yet
